@@ -166,7 +166,8 @@ def jobs(tier):
 
 # ---- E2 part: the registry under threads ----------------------------------------------------------------------------------
 E2_OPS = [(("append", "N1"), ("append", "N2")), (("append", "N1"), ("append", "N1")), (("append", "N1"), ("event_number", 1)),
-          (("event", "N1"), ("event", "N2")), (("event", "N1"), ("event_number", 2)), (("append", "N1"), ("name_for", 2)), (("attr", "N1"), ("append", "N2")), (("attr", "N1"), ("attr", "N2"))]
+          (("event", "N1"), ("event", "N2")), (("event", "N1"), ("event_number", 2)), (("append", "N1"), ("name_for", 2)), (("attr", "N1"), ("append", "N2")), (("attr", "N1"), ("attr", "N2")),
+          (("attr", "N1"), ("attr", "N1"))]       # the same new name used for the first time by two threads at once
 E2_OPS3 = [(("append", "N1"), ("append", "N2"), ("event_number", 2)), (("event", "N1"), ("event", "N2"), ("append", "N1"))]
 
 
